@@ -32,17 +32,18 @@ type c14Case struct {
 	UserClass string `json:"user_class"`
 	PassClass string `json:"pass_class"`
 	// what the server stores (after the normalisation every profile agrees on)
-	StoredUser   string `json:"stored_user"`
-	StoredPass   string `json:"stored_pass"`
-	Wrong        bool   `json:"wrong_secret"` // the server holds a different password
-	Admissible   bool   `json:"admissible"`   // false: no profile admits the credentials for SCRAM
-	SaltLen      int    `json:"salt_len"`
-	Iter         int    `json:"iter"`
-	Nonce        string `json:"server_nonce"`
-	Challenge    string `json:"cram_challenge"`
-	TLSVersion   string `json:"tls"`                     // none | 1.2 | 1.3
-	Via          string `json:"via"`                     // client (mail.Client) | direct (smtp.Client.Auth) | retry (same Auth object twice)
-	RetryVariant string `json:"retry_variant,omitempty"` // what differs at the server on the second attempt: same | iter | salt | both | nonce
+	StoredUser    string `json:"stored_user"`
+	StoredPass    string `json:"stored_pass"`
+	Wrong         bool   `json:"wrong_secret"` // the server holds a different password
+	Admissible    bool   `json:"admissible"`   // false: no profile admits the credentials for SCRAM
+	SaltLen       int    `json:"salt_len"`
+	Iter          int    `json:"iter"`
+	Nonce         string `json:"server_nonce"`
+	Challenge     string `json:"cram_challenge"`
+	TLSVersion    string `json:"tls"`                      // none | 1.2 | 1.3
+	Via           string `json:"via"`                      // client (mail.Client) | direct (smtp.Client.Auth) | retry (same Auth object twice)
+	RetryVariant  string `json:"retry_variant,omitempty"`  // what differs at the server on the second attempt: same | iter | salt | both | nonce
+	AdvertiseSeed int    `json:"advertise_seed,omitempty"` // AUTODISCOVER: selects the advertised mechanism subset
 }
 
 type credClass struct {
@@ -111,6 +112,16 @@ func genC14(r *mrand.Rand, i int) c14Case {
 			c.Admissible = false // the mechanism has no escaping for ^A
 		}
 	}
+	if i%11 == 10 {
+		// auto-discovery: the server advertises a subset, the client picks; only credentials whose stored
+		// form is the same under every mechanism
+		c.Mech = "AUTODISCOVER"
+		u, p = gen.Pick(r, c14Users[:8]), gen.Pick(r, c14Passes[:5])
+		c.User, c.UserClass, c.StoredUser = u.val, u.name, u.val
+		c.Pass, c.PassClass, c.StoredPass = p.val, p.name, p.val
+		c.Admissible = true
+		c.AdvertiseSeed = r.Intn(1 << 20)
+	}
 	c.Wrong = r.Intn(4) == 0
 	c.SaltLen = gen.Pick(r, []int{0, 1, 8, 16, 16, 24, 32, 64})
 	c.Iter = int(math.Exp(r.Float64() * math.Log(20000)))
@@ -122,6 +133,9 @@ func genC14(r *mrand.Rand, i int) c14Case {
 	c.TLSVersion = gen.Pick(r, []string{"1.2", "1.3"})
 	if !isPlus(c.Mech) && r.Intn(2) == 0 && (isScram(c.Mech) || c.Mech == "CRAM-MD5" || c.Mech == "XOAUTH2") {
 		c.TLSVersion = "none"
+	}
+	if c.Mech == "AUTODISCOVER" {
+		c.Via = "client"
 	}
 	switch r.Intn(6) {
 	case 0:
@@ -212,7 +226,24 @@ func runC14Case(r *ev.Run, c c14Case, nonces *c14Nonces) {
 		smu.Unlock()
 		caps := []string{"8BITMIME", "AUTH " + c.Mech}
 		if c.Mech == "AUTODISCOVER" {
-			caps = []string{"AUTH PLAIN LOGIN CRAM-MD5 SCRAM-SHA-1 SCRAM-SHA-256"}
+			all := []string{"PLAIN", "LOGIN", "CRAM-MD5", "SCRAM-SHA-1", "SCRAM-SHA-256", "SCRAM-SHA-1-PLUS", "SCRAM-SHA-256-PLUS", "XOAUTH2"}
+			var adv []string
+			for b, m := range all {
+				if c.AdvertiseSeed&(1<<b) != 0 {
+					adv = append(adv, m)
+				}
+			}
+			// auto-discovery on an unencrypted connection may only use SCRAM-SHA-x / CRAM-MD5: always offer one
+			usable := false
+			for _, m := range adv {
+				if m == "SCRAM-SHA-1" || m == "SCRAM-SHA-256" || m == "CRAM-MD5" {
+					usable = true
+				}
+			}
+			if !usable {
+				adv = append(adv, "SCRAM-SHA-1")
+			}
+			caps = []string{"AUTH " + strings.Join(adv, " ")}
 		}
 		sc := &refsmtp.Config{AllowUTF8: true, Auth: a.handler()}
 		if c.TLSVersion != "none" {
@@ -333,7 +364,12 @@ func runC14Case(r *ev.Run, c c14Case, nonces *c14Nonces) {
 		if !c.Admissible && res.Accepted && c.Wrong {
 			viol("accepted-with-wrong-secret:"+c.Mech, "authentication succeeded against a server holding a different secret", res)
 		}
-		if isScram(c.Mech) && res.ClientNonce != "" {
+		usedMech := c.Mech
+		if c.Mech == "AUTODISCOVER" {
+			usedMech = res.Mech
+			r.Seen("autodiscovered_mechanisms", res.Mech)
+		}
+		if isScram(usedMech) && res.ClientNonce != "" {
 			n := res.ClientNonce
 			okChars := len(n) >= 18
 			for i := 0; i < len(n); i++ {
@@ -356,7 +392,7 @@ func runC14Case(r *ev.Run, c c14Case, nonces *c14Nonces) {
 				viol("scram-username:"+c.UserClass, fmt.Sprintf("n= decodes to %q, expected %q", res.UserSeen, c.StoredUser), res)
 			}
 		}
-		if isPlus(c.Mech) && res.GS2 != "" {
+		if isPlus(usedMech) && res.GS2 != "" {
 			want := "tls-unique"
 			if c.TLSVersion == "1.3" {
 				want = "tls-exporter"
